@@ -102,6 +102,7 @@ def check(ctx):
     ctx.rule("FWD-alias", "alias has the target's signature minus cls; single call of the declared target on every path; "
                           "every parameter forwarded under its own name; **kwargs forwarded")
     ctx.rule("FWD-live", "restriction and typing parameters of each reader are read on some path")
+    ctx.rule("CAST-conv", "dtype maps are applied to parsed Python lists through the converting constructor, never .fast()")
     ctx.rule("TNT-order", "zip(names, values) labelling sites in readers: same order provenance on both sides")
     ctx.trust("CPython ast; pyarrow readers label their own columns")
     aliases = declared_aliases(repo)
@@ -238,5 +239,41 @@ def check(ctx):
                "the dtype map is applied to the final table (all renaming happens before) and the result is returned as is" if ok else
                "the frame is modified after from_arrow(dtypes=...) has applied the dtype map (e.g. columns are renamed afterwards), so the "
                "map was looked up under other names and is silently ignored", clause="casting them")
+    # ------------------------------------------------------------ CAST-conv
+    # A reader that applies its dtype map to Python lists assembled from parsed text must use the converting
+    # constructor: Vector.fast / DataFrameColumn.fast skip the None/NaN -> missing-value conversion.
+    n_cast = 0
+    for q in (f"{GEO}.read", f"{DF}.from_json", f"{DF}.read_json", f"{LOD}.read_json", f"{LOD}.from_json", f"{LOD}.read_csv"):
+        fn = repo.functions.get(q)
+        if fn is None:
+            continue
+        pylists = set()
+        for n in body_nodes(fn.node):
+            if isinstance(n, ast.Call) and isinstance(n.func, ast.Attribute):
+                if n.func.attr == "setdefault" and len(n.args) == 2 and isinstance(n.args[1], ast.List) and isinstance(n.func.value, ast.Name):
+                    pylists.add(n.func.value.id)
+                if n.func.attr == "append" and isinstance(n.func.value, ast.Subscript) and isinstance(n.func.value.value, ast.Name):
+                    pylists.add(n.func.value.value.id)
+            if isinstance(n, ast.Assign) and isinstance(n.targets[0], ast.Subscript) and isinstance(n.targets[0].value, ast.Name) \
+                    and isinstance(n.value, (ast.List, ast.ListComp)):
+                pylists.add(n.targets[0].value.id)
+        for f, c in calls_in(fn):
+            if not (isinstance(c.func, (ast.Attribute, ast.Name)) and c.args):
+                continue
+            a0 = c.args[0]
+            if not (isinstance(a0, ast.Subscript) and isinstance(a0.value, ast.Name) and a0.value.id in pylists):
+                continue
+            tail = c.func.attr if isinstance(c.func, ast.Attribute) else c.func.id
+            d = repo.dotted(f, c.func) or ""
+            if not (tail == "fast" or d.endswith(("DataFrameColumn", "Vector")) or tail in ("DataFrameColumn", "Vector")):
+                continue
+            n_cast += 1
+            ok = tail != "fast"
+            ctx.ob("CAST-conv", f, norm(c), c, ok,
+                   "parsed values are converted by the constructor that maps None/NaN to the dtype's missing value" if ok else
+                   f"{norm(c)} builds the column from a Python list of parsed values with the non-converting constructor: a null or "
+                   f"absent value stays the object None, so a str cast stores the text 'None' and an int cast raises -- reading "
+                   f"everything and then casting gives a missing value instead", clause="reading with a dtype mapping equals reading everything and casting")
+    ctx.count("dtype-cast sites over parsed Python lists", n_cast, 1)
     ctx.count("restriction/typing parameters of readers", n_live, 14)
     ctx.count("positional labelling sites", n_sites, 2)
